@@ -7,7 +7,8 @@
 const fs = require("fs");
 const path = require("path");
 
-const [mode, dir, inFile, outFile] = process.argv.slice(2);
+const [mode, dir, inFile, outFile, startArg] = process.argv.slice(2);
+const start = parseInt(startArg || "0", 10);   // resume after a call that never returned (the driver was killed)
 const origLog = console.log;
 console.log = () => {};           // the binding logs every call
 
@@ -57,8 +58,9 @@ async function load() {
   let get;
   try { get = await load(); } catch (e) { process.stderr.write("load failed: " + e + "\n"); process.exit(3); }
   const lines = fs.readFileSync(inFile, "utf8").split("\n").filter(x => x.trim() !== "");
-  const out = fs.openSync(outFile, "w");
-  for (const line of lines) {
+  const out = fs.openSync(outFile, start > 0 ? "a" : "w");
+  for (let li = start; li < lines.length; li++) {
+    const line = lines[li];
     const sc = JSON.parse(line);
     const res = { id: sc.id, ret: { t: "missing", s: [], b: false }, threw: false };
     const f = get(sc.fn);
